@@ -115,7 +115,3 @@ func cmdVerify(repo, verif string, pats []string) int {
 	return 0
 }
 
-func cmdCheck(repo, verif string, args []string) int {
-	fmt.Fprintln(os.Stderr, "check: not implemented yet")
-	return 2
-}
